@@ -179,6 +179,8 @@ def streams(rng, tier):
         c_ops.append(f"tokdec2 {len(pre)} {(pre + e).hex()}")
         if len(e) > 1 and rng.random() < 0.2:
             c_ops.append(f"tokdec2 0 {e[:rng.randrange(1, len(e))].hex()}")
+        if rng.random() < 0.1:
+            c_ops.append(f"tokdec2 {len(e) + rng.choice([0, 1, 2, 50])} {e.hex()}")      # at and beyond the end: nothing, no panic
     def judge_ctor(op, impl, model, spec):
         parts = impl.split(" | ")
         return "ok" if len(parts) == 3 and parts[0] == parts[1] == parts[2] else "violation"
